@@ -8,7 +8,7 @@ from pv.entail import canon, entails
 from pv.expr import Ctx, guard_facts, key_contains, key_subst
 from pv.facts import AnalysisBroken, strip_targs
 from pv.formula import Formula, exp_args, nonpositive
-from pv.loops import enclosing_loops, loop_shape
+from pv.loops import enclosing_loops, loop_shape, no_early_exit
 
 THIS = ("this",)
 ROWMAJOR = "elementsRowMajor"
@@ -77,7 +77,7 @@ def check_part_compute(rule, db, cfgname, fname, left_field, right_field, sign, 
             shp = loop_shape(f, ctx, Lp)
             if shp["var"] is not None and shp["var"][:2] == o[:2]:
                 L = shp
-    full = L is not None and L["kind"] == "index" and L["start"] == ("lit", 0) and L["rel"] == "<" and not L["exits"] and \
+    full = L is not None and L["kind"] == "index" and L["start"] == ("lit", 0) and L["rel"] == "<" and no_early_exit(L) and \
         L["bound"] in (("mcall", "Eigen::SparseMatrix::outerSize", A["matrix"]), ("mcall", "Eigen::SparseMatrix::outerSize", B["matrix"]),
                        ("mcall", "Eigen::SparseMatrix::rows", A["matrix"]), ("mcall", "Eigen::SparseMatrix::cols", B["matrix"]))
     if okouter and full:
